@@ -412,6 +412,7 @@ func (g *Gen) argList(d int, callee *gfunc) []*Node {
 		}
 	}
 	var args []*Node
+	spread := false
 	if callee != nil && callee.recursive {
 		args = append(args, Num(float64(g.r.Intn(4))))
 		if n > 0 {
@@ -433,8 +434,9 @@ func (g *Gen) argList(d int, callee *gfunc) []*Node {
 		if a == nil {
 			a = g.exprNoFunc(t, d)
 		}
-		if !g.off(NoSpread) && g.chance(8) && (g.o.SurplusArgs || callee == nil || callee.hasRest) {
-			a = Spread(g.expr(hArr, d))
+		if !g.off(NoSpread) && g.chance(8) && !spread && (g.o.SurplusArgs || callee == nil || callee.hasRest) {
+			a = Spread(g.expr(hArr, d)) // at most one spread per call (no doubling of argument lists)
+			spread = true
 		}
 		args = append(args, a)
 	}
@@ -760,7 +762,9 @@ func (g *Gen) funcLike(kind fkind, name string) *Node {
 	}
 	g.budget -= 2
 	g.fdepth++
-	defer func() { g.fdepth-- }()
+	sTryDepth := g.tryDepth
+	g.tryDepth = 0
+	defer func() { g.fdepth--; g.tryDepth = sTryDepth }()
 	// save context
 	sFn, sStrict, sLoops, sSw, sLabels, sFin, sNoRet := g.fn, g.strict, g.loops, g.swtch, g.labels, g.inFinally, g.noReturn
 	g.fn, g.loops, g.swtch, g.labels, g.inFinally, g.noReturn = info, 0, 0, nil, 0, false
